@@ -19,14 +19,15 @@ for a in arg_types:
     else:
         if a in [ir.f32, ir.f64] and self.has_option("rvf"):
             if fregs: r = fregs.pop(0)
-            else:     arg_size = self.info.get_size(a); r = StackLocation(offset, a.size); offset += arg_size
+            else:     arg_size = self.info.get_size(a); r = StackLocation(offset, arg_size); offset += arg_size   # (was a.size before the fix)
         else:
             if regs:  r = regs.pop(0)
             else:     arg_size = self.info.get_size(a); r = StackLocation(offset, arg_size); offset += arg_size
 ```
 An argument type is abstracted to its kind and its two sizes: `tsize` = `ty.size` (what the IR type
-says) and `isize` = `arch.info.get_size(ty)` (what the target says); the float stack case of the
-RISC-V code uses `tsize` for the slot and `isize` for the advance — mirrored.
+says, used for blobs) and `isize` = `arch.info.get_size(ty)` (what the target says, used for scalars).
+Before the repair the float stack case of the RISC-V code used `tsize` for the slot and `isize` for the
+advance (f64 with rvf: 8 and 4, overlapping slots).
 -/
 namespace Model.ArgLoc
 open Spec.StackSlots
@@ -63,7 +64,7 @@ def riscvGo (rvf : Bool) : List ATy → List Nat → List Nat → Int → List L
       if rvf then
         match fregs with
         | r :: rs => .freg r :: riscvGo rvf rest regs rs off
-        | [] => .stack off t.tsize :: riscvGo rvf rest regs [] (off + t.isize)
+        | [] => .stack off t.isize :: riscvGo rvf rest regs [] (off + t.isize)
       else
         match regs with
         | r :: rs => .reg r :: riscvGo rvf rest rs fregs off
